@@ -130,10 +130,17 @@ static void fill(SymmetricTridiagonalSolver<double>& t, const TriSys& s)
 static int mode_tridiag(int cases, int max_n)
 {
     Rng rng(seed_from_env());
+    // object history: as the smoothers' buildMatrix does, a solver slot is RE-ASSIGNED (move assignment of a fresh solver of the new
+    // dimension over a slot that has already factorised and solved another system), in two of three cases; every fifth case the
+    // filled-and-used solver is additionally moved into a second used slot before its last solves
+    SymmetricTridiagonalSolver<double> slot, slot2;
     for (int c = 0; c < cases; c++) {
         TriSys s = gen_tridiag(rng, max_n);
-        SymmetricTridiagonalSolver<double> t(s.n);
-        fill(t, s);
+        SymmetricTridiagonalSolver<double> fresh_obj(s.n);
+        const bool reuse = c % 3 != 0;
+        if (reuse) slot = SymmetricTridiagonalSolver<double>(s.n);
+        SymmetricTridiagonalSolver<double>* tp = reuse ? &slot : &fresh_obj;
+        fill(*tp, s);
         printf("T %d %d %d fam=%s main=%s sub=%s corner=%s\n", s.n, (int)s.cyclic, (int)s.wc, s.family.c_str(),
                hexvec(s.a).c_str(), hexvec(s.b).c_str(), hex(s.c).c_str());
         int k = rng.range(1, 4);
@@ -142,9 +149,12 @@ static int mode_tridiag(int cases, int max_n)
             bool repeat = r > 0 && rng.coin(0.5);
             if (!repeat) gen_rhs(rng, rhs);
             std::vector<double> x = rhs, t1(s.n), t2(s.n);
-            t.solveInPlace(x.data(), t1.data(), t2.data());
+            tp->solveInPlace(x.data(), t1.data(), t2.data());
             printf("S rep=%d rhs=%s x=%s\n", (int)repeat, hexvec(rhs).c_str(), hexvec(x).c_str());
+            // the used (factorised) solver moves on into another used slot and keeps solving there
+            if (r == 0 && c % 5 == 4) { slot2 = std::move(*tp); tp = &slot2; }
         }
+        SymmetricTridiagonalSolver<double>& t = *tp;
         std::vector<double> pm(s.n), ps(s.n - 1);
         for (int i = 0; i < s.n; i++) pm[i] = t.main_diagonal(i);
         for (int i = 0; i < s.n - 1; i++) ps[i] = t.sub_diagonal(i);
